@@ -65,6 +65,28 @@ CHECKS = {
              note="PC-based maps (algod) out of scope; generated files live in a scratch directory under /tmp that is removed", ref="2/C15"),
 }
 NOT_YET = {}
+# drivers added in wave 7 (appended to the texts above)
+ADD7 = {
+ "C02": " Also: a recursive routine whose local is handed out by reference and needed after the recursion; every call graph over <= 3 routines x definition order; Break / Continue / Return inside an operand of a subroutine body (known finding).",
+ "C03": " Also: Routers with 15-17 argument methods under every pair of option settings, run on client-built calls.",
+ "C04": " Also: the constructor sweep behind a leading Comment statement.",
+ "C05": " Also: the operand-transfer family (Break / Continue / Return inside an operand; known finding for members with pending operands).",
+ "C06": " Also: the value built as the output of an ABI-returning subroutine whose frame holds 126/127 (thorough 0..129) other ABI locals.",
+ "C07": " Also: one element accessor object used twice.",
+ "C10": " Also: a DynamicScratchVar passed by reference (directly and forwarded).",
+ "C11": " Also: the same objects compiled for v7 / v8 without frame pointers / v8 against a fresh v8 compilation.",
+ "C12": " Also: a repeated constant first seen after up to 2001 (3001) single-use constants.",
+ "C13": " Also: Bytes(bytearray) whose buffer the caller changes afterwards.",
+ "C14": " Also: a Router method forwarding the ABI values it received (reference types included) into an inner method call.",
+ "C15": " Also: populations of repeated markers with assembled constants.",
+ "C16": " Also: one evaluation-counting expression object at every numerator / denominator position.",
+ "C17": " Also: histories in which a subroutine is queried on the side before the variables are made.",
+ "C18": " Also: every annotated tree compiled a second time.",
+ "C19": " Also: call sites of a subroutine object that was called with the declared type before.",
+ "C20": " Also: every call graph over <= 3 (4) routines x definition order, then-only nesting to depth 150 (300), and a 300 s compile budget per program (no result = violation).",
+}
+for _k, _v in ADD7.items():
+    CHECKS[_k]["text"] += _v
 props = [json.loads(l) for l in open(os.path.join(HERE, "properties.jsonl"))]
 checks = []
 na = []
